@@ -189,7 +189,7 @@ def oracle(parts, outcome, obs):
 
 
 CLAIM = {
-    "text": "Theorems C14_* (Coq, closed): for every option record the header and the separator have the same display width; for every row whose values fit their columns the rendered line has exactly that width, under all 32 -i flag sets; the rendered row is the concatenation of 33 cells that correspond one-to-one and in order to the header columns (same group, width = column width + separator), so every cell starts exactly under its column; each cell is all blanks under a stated unknown-value condition and a row with nothing known is the address followed by blanks at full width; header and rows consist of the base columns plus exactly the groups whose letter (A, s, a, w, e) is given; all lines of a printed frame have identical width. The column list is regenerated from header.rs on every run; the row renderer is a hand model of simple_display.rs tied to the code by comparing every line of every frame printed by the built CLI with the model rendering, on states that fill every column and leave each blank, with extreme fitting and negative values, for all 32 flag sets.",
+    "text": "Theorems C14_* (Coq, closed): for every option record the header and the separator have the same display width; for every row whose values fit their columns the rendered line has exactly that width, under all 32 -i flag sets; the rendered row is the concatenation of 33 cells that correspond one-to-one and in order to the header columns (same group, width = column width + separator), so every cell starts exactly under its column; each cell is all blanks under a stated unknown-value condition and a row with nothing known is the address followed by blanks at full width; header and rows consist of the base columns plus exactly the groups whose letter (A, s, a, w, e) is given; all lines of a printed frame have identical width. The column list is regenerated from header.rs on every run; the row renderer is a hand model of simple_display.rs tied to the code by comparing every line of every frame printed by the built CLI with the model rendering, on states that fill every column and leave each blank, with extreme fitting and negative values, for all 32 flag sets. CONTENT of the cells (Proofs/CellContents.v): the number printers emit exactly the decimal digits of the value, no leading zero, sign first (C14_number_*, C14_signed_number, C14_hex_digit); the SQWK cell is four digits with the code's value or four blanks; the W cell is the specification's wake letter; ALT B / VRATE / TRK / HDG are the right-aligned value plus source mark, and entirely blank (mark included) when unknown; the PTH characters are the hex digit of (age/10 s) mod 16; LC is the two-digit age below 100 s; the country is never truncated; LATITUDE/LONGITUDE digits are the value rounded half-to-even at 1e-5 (C14_*_cell, C14_age_digits, C14_position_cells). Rows are also rendered at simulated ages (kind D, guarded hook) and compared character for character.",
     "note": "That each cell shows the field its header names is by construction of the cell list (which is what the theorem speaks about) plus the character-for-character correspondence with CLI output; character display width is taken as 1.",
     "technique": "Coq proof on the rendering model (cell-width lemmas, 32 flag sets) over the regenerated header table; CLI differential rendering + layout oracle",
 }
